@@ -543,7 +543,8 @@ func r01_6(c *Ctx, rule string) {
 		a := call.Common().Args
 		okT := c.DerivesFrom(a[1], func(v ssa.Value) bool {
 			l, ok := v.(*ssa.Lookup)
-			return ok && isFieldLoad(l.X, "fsutil.DiskWriter.dirModTimes")
+			// (the map may have been read into a local the literal captures)
+			return ok && (isFieldLoad(l.X, "fsutil.DiskWriter.dirModTimes") || c.DerivesFrom(l.X, func(y ssa.Value) bool { return isFieldLoad(y, "fsutil.DiskWriter.dirModTimes") }, 3))
 		}, 4)
 		_, okP := eng.Strip(a[0]).(*ssa.Parameter)
 		c.R.Check(okT && okP, rule, c.siteName(call)+"/args", c.pos(call), "chtimes(path, dirModTimes[path])", "the fix-up does not apply dirModTimes[path] to path")
